@@ -1,6 +1,7 @@
 """C07: cell capacity, value ranges and read bounds are enforced."""
 from ..gen import cells as G
 from ..gen import scripts as S
+from ..translate import arith
 from .C06 import bline, sline, LEAF_DAG
 
 SPEC = dict(
@@ -13,7 +14,9 @@ SPEC = dict(
              'range for its width or its TL-B encoding does not fit the remaining bits/refs (c07_refuse_iff, both directions; '
              'c07_refuse_iff_composite for store_cell/store_slice with the REMAINING refs of the slice); the primitive consuming reads return '
              'exactly the next bits and advance by exactly that many, and raise leaving the slice unchanged when more is requested than remains '
-             '(c07_read_bounds); every typed read leaves a suffix of its input (c07_read_suffix). The model is tied to the working tree by '
+             '(c07_read_bounds); every typed read leaves a suffix of its input (c07_read_suffix); the capacity comparisons themselves (check_overflow/'
+             'check_underflow, the refs tests of store_ref/store_cell/store_slice) are re-translated from the source on every run and proved to refuse '
+             'exactly beyond 1023 bits / 4 refs (c07_src_*). The model is tied to the working tree by '
              'differential testing of builder histories at every fill level and of over-reads, each also checked on the library alone against an '
              'independent fits/range predictor.',
         level_note='Proved for all inputs: the statements above, about Model/Builder.lean. Only sampled: that the Python code behaves as the model '
@@ -21,13 +24,16 @@ SPEC = dict(
                    'Preconditions stated in the theorems: width 0 is outside the library domain (int2ba refuses it), anycast depth is checked '
                    'against its 5-bit field (TL-B says <= 30), Address.hash_part is assumed to have 32 bytes. Non-consuming preload_* on an '
                    'over-read return short data (outside the property, recorded in design/C07.md).',
-        technique='Lean 4 proof (hand model, invariant by induction over operation histories) + differential correspondence with the library'),
+        technique='Lean 4 proof (hand model, invariant by induction over operation histories) + differential correspondence with the library '
+                  '+ source-regenerated arithmetic lemmas'),
+    translators=[('tvm_bitarray.py/builder.py capacity tests->Generated/Capacity.lean', arith.regenerator('Capacity'))],
     design_ref='DESIGN.md §6 C07',
     rule='builder histories at every fill level (0,1,1015..1023 bits x 0..4 refs) mixing fitting, overflowing and out-of-range stores '
          '(ints, var-ints, bits, bytes, refs, maybe-refs, cells, partly consumed slices, addresses, snake strings); each op must succeed iff '
          'its value is in range and its encoding fits; over-reads for every remaining length 0..16 x request 0..24 and random; depth limit; '
          'distinct = distinct script; all non-trivial',
-    trusted_base=['Model/Builder.lean mirrors builder.py/slice.py/TvmBitarray by hand', 'harness/gen/scripts.py executors + independent TL-B encoder'],
+    trusted_base=['Model/Builder.lean mirrors builder.py/slice.py/TvmBitarray by hand', 'harness/gen/scripts.py executors + independent TL-B encoder',
+                  'harness/translate/pyarith.py + arith.py (Python comparisons -> Lean) for the c07_src_* theorems'],
     assumptions=['correspondence is sampled differential testing'],
 )
 
@@ -76,11 +82,12 @@ def rand_store(rng, ncells, dag):
     return f'sl:{k}:{rng.randrange(len(dag[k][1]) + 1)}:{rng.randrange(len(dag[k][2]) + 1)}'
 
 
-def history(ctx, dag, cells, fill_bits, fill_refs, t):
+def history(ctx, dag, cells, fill_bits, fill_refs, t, ops=None):
     rng = ctx.rng
     from pytoniq_core.boc.builder import Builder
     pre = ([f'b:{"0" * fill_bits}'] if fill_bits else []) + [f'r:0'] * fill_refs
-    ops = [rand_store(rng, len(cells), dag) for _ in range(rng.randrange(1, 9))]
+    if ops is None:
+        ops = [rand_store(rng, len(cells), dag) for _ in range(rng.randrange(1, 9))]
     inp = {'dag': [list(n) for n in dag], 'prefill': [fill_bits, fill_refs], 'ops': ops}
     ctx.case(('hist', fill_bits, fill_refs, tuple(ops)), sample={'fill': [fill_bits, fill_refs], 'ops': [o[:40] for o in ops[:5]]})
     b = Builder()
@@ -168,8 +175,36 @@ def overread_refs(ctx, nrefs, kind):
     ctx.expect_model(sline(dag, 2, ops), f'ok {res} {rb} {rr}', 'overread-refs')
 
 
+def src_search(ctx):
+    """Search mode only: the (fill, request) points where a regenerated capacity test (Generated/Capacity.lean) differs from the
+    bound it is proved equal to, replayed as one-operation histories / over-reads.  True = a concrete failing input was found."""
+    found = arith.search_points(ctx, ['Capacity'])
+    n0 = len(ctx.failures)
+    dag = LEAF_DAG + [(G.ORD, '0' * 1023, (0, 1, 2, 3)), (G.ORD, '10', (0,))]
+    cells = G.lib_build(dag)
+    by_refs = {len(n[2]): i for i, n in enumerate(dag)}
+    for pt in found.get('bitsOverflow') or []:
+        if pt['used'] <= 1023 and 1 <= pt['length'] <= 1100:
+            history(ctx, dag, cells, pt['used'], 0, 'src', ops=['b:' + '1' * pt['length']])
+    for pt in found.get('refsFull') or []:
+        if pt['refs'] <= 4:
+            history(ctx, dag, cells, 0, pt['refs'], 'src', ops=['r:0'])
+    for name, mk in (('cellRefsOverflow', lambda k: f'cell:{k}'), ('sliceRefsOverflow', lambda k: f'sl:{k}:0:0')):
+        for pt in found.get(name) or []:
+            if pt['refs'] <= 4 and pt['more'] in by_refs and len(dag[by_refs[pt['more']]][1]) < 1023:
+                history(ctx, dag, cells, 0, pt['refs'], 'src', ops=[mk(by_refs[pt['more']])])
+    for pt in found.get('bitsUnderflow') or []:
+        if pt['remaining'] <= 1023 and 1 <= pt['length'] <= 1023:
+            for kind in ('lb', 'lu', 'sk'):
+                if kind != 'lu' or pt['length'] <= 256:
+                    overread(ctx, pt['remaining'], 0, pt['length'], kind)
+    return len(ctx.failures) > n0
+
+
 def run(ctx):
     rng = ctx.rng
+    if ctx.search and src_search(ctx):
+        return
     for nrefs in range(0, 5):
         for kind in ('lr', 'pr', 'lmr', 'pmr', 'ld'):
             overread_refs(ctx, nrefs, kind)
